@@ -65,8 +65,11 @@ func init() {
 			r := newRwRT(c)
 			c.guard("OPT.WHITELIST", func() { r.ruleOptWhitelist(s) })
 			c.guard("RW.TMPL.RETURN", r.rulePass0)
+			c.guard("RW.TMPL.FOR", r.ruleTmplFor)
 			c.keep(func(o Obligation) bool {
 				switch o.Rule {
+				case "RW.TMPL.FOR":
+					return strings.Contains(o.Construct, "wrapped in a thunk")
 				case "RW.TMPL.HOIST":
 					return false
 				case "RW.TMPL.RETURN":
